@@ -160,3 +160,31 @@ func (h *Hasher) Sum() uint64 {
 	z = (z ^ (z >> 27)) * 0x94D049BB133111EB
 	return z ^ (z >> 31)
 }
+
+// Merge adds another result's observations (used after goroutines with
+// private results have finished).
+func (r *Result) Merge(o *Result) {
+	r.Evaluations += o.Evaluations
+	for k, v := range o.Counters {
+		if len(k) > 4 && k[:4] == "max_" {
+			r.Max(k, v)
+		} else {
+			r.Counters[k] += v
+		}
+	}
+	for d := range o.digests {
+		r.Distinct(d)
+	}
+	for _, s := range o.Samples {
+		r.Sample(s)
+	}
+	for _, v := range o.Violations {
+		if len(r.Violations) < r.violCap {
+			r.Violations = append(r.Violations, v)
+		}
+	}
+	r.NViolations += o.NViolations
+	for k, v := range o.Exhaustive {
+		r.Exhaustive[k] = v
+	}
+}
